@@ -284,6 +284,7 @@ func VerifH_C11_lowlatency() {
 	verifReqLog, verifPlaylists = nil, nil
 	canSkip := verifBool("canskip")
 	withRange := verifBool("hintrange")
+	startOnly := !withRange && verifBool("hintstartonly") // BYTERANGE-START without BYTERANGE-LENGTH: from that offset to the end of the resource
 	mk := func(k int) *playlist.Media {
 		t := time.Second
 		sc := &playlist.MediaServerControl{CanBlockReload: true}
@@ -313,6 +314,9 @@ func VerifH_C11_lowlatency() {
 			p.PreloadHint.ByteRangeStart = verifRangeU64("hintstart", 0, 99)
 			p.PreloadHint.ByteRangeLength = &l
 		}
+		if startOnly {
+			p.PreloadHint.ByteRangeStart = verifRangeU64("hintstart", 1, 99)
+		}
 		return p
 	}
 	d := verifDownloader(mk(0))
@@ -341,7 +345,11 @@ func VerifH_C11_lowlatency() {
 			verifAssert("C11", "playlist-query-preserved", containsStr(r.url, "tok=1"))
 		} else {
 			verifAssert("C11", "preload-hint-of-each-successive-playlist", r.url == "http://host.example/live/dir/part"+itoaSmall(np)+".mp4")
-			verifAssert("C11", "hint-range-header", r.isSet == withRange)
+			verifAssert("C11", "hint-range-header", r.isSet == (withRange || startOnly))
+			if startOnly && r.isSet {
+				// open-ended range "bytes=<start>-"
+				verifAssert("C11", "hint-open-ended-range", len(r.rng) > 7 && r.rng[:6] == "bytes=" && r.rng[len(r.rng)-1] == '-')
+			}
 			np++
 		}
 	}
